@@ -57,6 +57,8 @@ def count_of(root, dom):
         return z3.IntVal(0)
     if isinstance(root, KeySpace) and not root.keys:
         return z3.If(dom, z3.IntVal(1), z3.IntVal(0))  # the universe of the empty key tuple has one element
+    if z3.is_true(dom) and not isinstance(root, KeySpace) and z3.is_expr(root.n):
+        return root.n  # every row of the universe
     from .values import tid
 
     key = (root.name, tid(dom))
@@ -305,11 +307,19 @@ class Frame:
     def pyvc_binop(self, interp, opname, o, rev):
         if not self.cols and isinstance(o, (EmptySeries, Frame)) and (isinstance(o, EmptySeries) or not o.cols):
             return self._new()
-        return NotImplemented
+        from . import colwise
+
+        return colwise.frame_binop(self, interp, opname, o, rev)
 
     def pyvc_setitem(self, interp, key, val):
         if isinstance(key, list) and not key and isinstance(val, Frame) and not val.cols:
             return  # df[[]] = <frame without columns>: nothing changes
+        if isinstance(key, list) and isinstance(val, Frame) and list(val.cols) == list(key) and (same_rows(val.axis, self.axis) or provably_same_rows(val.axis, self.axis)):
+            _use("DataFrame[list of names] = frame with the same rows and names: the columns are replaced")
+            for k in key:
+                c = val.cols[k]
+                self.cols[k] = c if isinstance(c, Poison) else V(c.t, (self.axis,), self.index, c.nan, c.inf, c.meta)
+            return
         if not isinstance(key, str):
             raise Undecided("DataFrame[non-string] = ...")
         self.cols[key] = self.coerce_column(interp, val, key)
@@ -676,6 +686,11 @@ class Loc:
             r = ite(V(mask.t, (f.axis,)), V(newv.t, newv.axes if newv.axes else (), None, newv.nan, newv.inf), old)
             f.cols[name] = V(r.t, (f.axis,), f.index, r.nan, r.inf)
             return
+        if isinstance(key, tuple) and len(key) == 2 and isinstance(key[0], V) and isinstance(key[1], list) and all(isinstance(n, str) for n in key[1]) and not isinstance(val, (V, Frame)):
+            _use("DataFrame.loc[mask, [cols]] = scalar: masked assignment of a constant to several columns")
+            for n in key[1]:
+                self.pyvc_setitem(interp, (key[0], n), val)
+            return
         raise Undecided(".loc assignment form")
 
     def pyvc_getitem(self, interp, key):
@@ -1032,9 +1047,29 @@ def _m_mean(self, interp):
     def mean(axis=0, **kw):
         if not self.cols:
             return EmptySeries()
-        raise Undecided("DataFrame.mean of a non-empty frame")
+        from . import colwise
+
+        return colwise.frame_reduce(self, interp, "mean", axis)
 
     return mean
+
+
+def _m_std(self, interp):
+    def std(axis=0, **kw):
+        if not self.cols:
+            return EmptySeries()
+        raise Undecided("DataFrame.std of a non-empty frame")
+
+    return std
+
+
+def _m_sum(self, interp):
+    def sum_(axis=0, **kw):
+        from . import colwise
+
+        return colwise.frame_reduce(self, interp, "sum", axis)
+
+    return sum_
 
 
 class EmptySeries:
@@ -1084,6 +1119,15 @@ def _m_astype(self, interp):
                 self.col(k)
             _use("DataFrame.astype({col: float}): the same values as floats (null stays null)")
             return self._new()
+        if dtype in ("float64", "float") or dtype is float or getattr(dtype, "__name__", "") in ("float", "py_float"):
+            _use("DataFrame.astype('float64'): the same numbers as floats")
+            out = self._new()
+            for k, c in out.cols.items():
+                if not isinstance(c, Poison) and (z3.is_int(c.t) or z3.is_real(c.t)):
+                    out.cols[k] = V(real(c.t), (out.axis,), out.index, c.nan, c.inf, c.meta)
+                elif not isinstance(c, Poison):
+                    raise Undecided("astype(float) of a non-numeric column")
+            return out
         raise Undecided("DataFrame.astype form")
 
     return astype
@@ -1115,7 +1159,8 @@ _FRAME_METHODS = {
     "query": _m_query,
     "values": _m_values,
     "mean": _m_mean,
-    "std": _m_mean,
+    "std": _m_std,
+    "sum": _m_sum,
     "iloc": _m_iloc,
     "index": _m_index,
 }
@@ -1413,6 +1458,17 @@ def id_term(root):
 def pd_concat(interp):
     def concat(objs, axis=0, **kw):
         objs = list(objs)
+        if axis == 1:
+            if not all(isinstance(o, Frame) for o in objs) or not all(same_rows(o.axis, objs[0].axis) or provably_same_rows(o.axis, objs[0].axis) for o in objs):
+                raise Undecided("pd.concat(axis=1) of frames with different rows")
+            _use("pd.concat(frames over the same rows, axis=1): columns side by side")
+            out = objs[0]._new()
+            for o in objs[1:]:
+                for k, c in o.cols.items():
+                    if k in out.cols:
+                        raise Undecided("pd.concat(axis=1) with a repeated column name")
+                    out.cols[k] = c if isinstance(c, Poison) else V(c.t, (out.axis,), out.index, c.nan, c.inf, c.meta)
+            return out
         if axis != 0:
             raise Undecided("pd.concat along columns")
         from . import levels
@@ -1625,6 +1681,35 @@ def pd_isnull(x):
     return x is None
 
 
+def frame_dummies(interp, df, columns=None, prefix=None, prefix_sep="_", dtype=None, **kw):
+    """pd.get_dummies(frame, columns=[...], prefix=[...]): every listed column is replaced by one 0/1 column per value
+    that OCCURS in it (values sorted, names prefix+sep+value), appended after the other columns.  The values range over a
+    finite universe of names declared by the harness (interp.level_universe[col], plus 'other'); which of them occur is
+    decided by branching, so the column set is concrete on every path.  Obligation: the universe covers the column."""
+    if kw or columns is None:
+        raise Undecided("get_dummies form")
+    columns = list(columns)
+    prefix = list(prefix) if prefix is not None else list(columns)
+    uni = getattr(interp, "level_universe", None)
+    if uni is None:
+        raise Undecided("get_dummies on a frame without a declared universe of level names")
+    _use("pd.get_dummies(frame, columns, prefix, prefix_sep): one indicator column per value that occurs in the column (sorted), after the remaining columns")
+    if len(df.axis.doms) != 1:
+        raise Undecided("get_dummies on a concatenated frame")
+    out = df._new(cols={k: v for k, v in df.cols.items() if k not in columns})
+    for cname, pfx in zip(columns, prefix):
+        c = df.col(cname)
+        cands = sorted(set(list(uni.get(cname, [])) + ["other"]))
+        nn = z3.Not(c.nan) if c.nan is not None else z3.BoolVal(True)
+        interp.ctx.oblige(f"get_dummies.{cname}.level_universe_covers_the_column", z3.Implies(z3.And(*df.axis.facts(), nn), z3.Or(*[c.t == z3.StringVal(v) for v in cands])), kind="alignment", why="the finite universe of level names the harness declared must contain every value of the column")
+        for v in cands:
+            hit = z3.And(nn, c.t == z3.StringVal(v))
+            b = sums.reduce_anyall(interp, V(hit, (df.axis,)), None, "any")
+            if interp.ctx.branch(b, f"level_present[{cname}={v}]"):
+                out.cols[f"{pfx}{prefix_sep}{v}"] = V(z3.If(hit, z3.IntVal(1), z3.IntVal(0)), (out.axis,), out.index)
+    return out
+
+
 def pandas_table(interp):
     return {
         "concat": pd_concat(interp),
@@ -1633,7 +1718,7 @@ def pandas_table(interp):
         "merge": lambda l, r, **kw: merge_frames(interp, l, r, **kw),
         "DataFrame": _dataframe_ctor(interp),
         "Series": _series_ctor(interp),
-        "get_dummies": lambda data, **kw: Dummies(interp, data),
+        "get_dummies": lambda data, **kw: (frame_dummies(interp, data, **kw) if isinstance(data, Frame) else Dummies(interp, data)),
     }
 
 
